@@ -118,6 +118,22 @@ theorem translated_deepcopy_certified :
       ["hooks.py:HookHost.__copy__", "hooks.py:HookHost.__deepcopy__", "unit/unit.py:Unit._SubUnitsList.__deepcopy__"] :=
   ⟨rfl, rfl, rfl⟩
 
+/-- values are handed along the line BY REFERENCE (both shallow copies, every hand-over in `init_solve`, every root-hook
+fallback), and a number can be a mutable object (a numpy array where a python float is usual).  The model has the result
+of a hook function as a NEW value or a handed-on reference and numbers as atoms that nothing changes; on the side of the
+code that is: no hook function of the package (every module level function decorated with `@<Class>.….<hook>`, all of
+them are read) performs an in-place operation - augmented assignment of any operator, mutating method call, assignment to
+a subscript or attribute, `out=` - on anything but a local it has bound only to objects it built itself (`length = 0;
+length += …`, `acc = []; acc.append(…)`, `t = a | {…}; t.add(…)`).  `strain = in_profile.strain; strain += …` is listed
+in `hookInplaceForeign` (with array valued strain it changes the in-profile's - the caller's - value) -/
+theorem translated_hook_functions_no_inplace :
+    Gen.C12.hookInplaceForeign = [] ∧ 0 < Gen.C12.hookFunctions :=
+  ⟨rfl, by decide⟩
+
+/-- the reader is not blind: the package does have in-place operations in hook functions, all on locals of their own -/
+example : 0 < Gen.C12.hookInplaceOwn.length := by decide
+example : ("rotator/hookimpls.py:classifiers", "t.add('edged')") ∈ Gen.C12.hookInplaceOwn := by decide
+
 /-! ## a concrete state for the non-vacuity examples
 
   0,1  cross-section and classifier set of the caller's profile 2;   3 groove classifiers, 4 groove, 5 roll template;
